@@ -222,9 +222,20 @@ func init() {
 	p34.WGet, p34.WIter = 2, 0
 	p34.WCommitWith = 3
 	p34.Groups = [][]string{nil, {"client", "txn", "wm", "txncb"}, {"client", "txn", "wm", "txncb", "doWrites", "writer"}}
+	p34dv := *p34
+	p34d := &p34dv
+	p34d.Name = "T-C34d"
+	p34d.WDrop = 3
 	register(&Scenario{Prop: "C34", Family: "T", Level: "exploration", Profile: p34, NonTrivialProbe: "begin_while_commit_in_flight",
-		Gen:  func(t *rapid.T) *Case { return GenCase(t, p34) },
-		Rule: "2-5 clients doing short transactions with dense schedule points in readTs/newCommitTs/doneCommit and in both WaterMark.process goroutines; invariants: (i) when NewTransaction returns readTs no commit <= readTs is still in flight and every acknowledged commit is <= readTs, (ii) at every watermark advance d0->d1 no index in (d0,d1] has Begin without Done, (iii) every waiter is released (deadlock detector + step budget). non-trivial = run in which a transaction began while another commit was in flight",
+		Gen: func(t *rapid.T) *Case {
+			if rapid.IntRange(0, 2).Draw(t, "c34_failing_commits_variant") == 0 {
+				// commits that fail after their timestamp was allocated (writes blocked by a
+				// concurrent DropPrefix/DropAll): their marks must be finished all the same
+				return GenCase(t, p34d)
+			}
+			return GenCase(t, p34)
+		},
+		Rule: "2-5 clients doing short transactions (one case in three with concurrent DropPrefix/DropAll calls that make commits fail after their timestamp was allocated) with dense schedule points in readTs/newCommitTs/doneCommit and in both WaterMark.process goroutines; invariants: (i) when NewTransaction returns readTs no commit <= readTs is still in flight and every acknowledged commit is <= readTs, (ii) at every watermark advance d0->d1 no index in (d0,d1] has Begin without Done, (iii) every waiter is released (deadlock detector + step budget). non-trivial = run in which a transaction began while another commit was in flight",
 	})
 	// C07 / C11 / C14: close + re-open cycles after histories with and without compaction
 	pre := profT("K-REOPEN")
@@ -499,6 +510,8 @@ func init() {
 	p25.MaxKeys = 10
 	p25.MinClients, p25.MaxClients = 2, 4
 	p25.WIter = 0
+	p25.WBatch = 6 // multi-key commits issued by one op while the stream runs
+	p25.WGet = 2
 	p25.TTL = true
 	p25.Groups = [][]string{nil, {"client", "stream", "txn", "flusher"}}
 	register(&Scenario{Prop: "C25", Family: "K", Level: "exploration", Profile: p25, NonTrivialProbe: "stream_with_concurrent_commits",
@@ -522,6 +535,8 @@ func init() {
 	p24.MaxKeys = 8
 	p24.MinClients, p24.MaxClients = 2, 4
 	p24.WIter = 0
+	p24.WBatch = 6
+	p24.WGet = 2
 	p24.Groups = [][]string{nil, {"client", "stream", "txn", "flusher"}}
 	register(&Scenario{Prop: "C24", Family: "K", Level: "exploration", Profile: p24, NonTrivialProbe: "restores_verified",
 		Gen: func(t *rapid.T) *Case {
@@ -551,6 +566,18 @@ func init() {
 			})
 		},
 		Rule: "the first client takes a full Backup and then incremental Backups, each with the version the previous one returned, while 1-3 other clients commit between AND during the backups (the backup's producer goroutines are scheduled actors); at the end the whole chain is Loaded into a fresh database, which must equal the source (value, user meta, expiry, version of every key) as of some single timestamp between the start and the end of the last backup. non-trivial = run whose chain was restored and verified",
+	})
+	// C26 StreamWriter
+	p26 := profT("W-C26")
+	p26.Groups = [][]string{nil, {"client", "sw", "builder"}}
+	p26.TTL = true
+	register(&Scenario{Prop: "C26", Family: "W", Level: "exploration", Profile: p26, NonTrivialProbe: "sw_verified",
+		Gen: func(t *rapid.T) *Case { return genSWCase(t, p26) },
+		Run: func(t *testing.T, c *Case, keep bool) Outcome {
+			return executeWith(t, c, p26, keep, func(r *Run) { r.extra = reopenChecks }, nil)
+		},
+		Rule: "1-4 sorted streams with disjoint key ranges (keys that nest and contain 0x00/0xff, 1-3 versions each, values on both sides of the value threshold, user meta, expiry, delete and discard-earlier bits) are cut into Write calls of random size and stream interleaving, with StreamDone markers for a random subset, written by one or two client goroutines; one or two rounds (Prepare or PrepareIncremental on the empty database, then PrepareIncremental over the first round's data); the per-stream writer goroutines and table-building goroutines are scheduled actors; compression/encryption/table sizes from the swarm. Oracle after every Flush: the all-versions scan equals exactly the streamed entries (plus the earlier round), Get agrees, a new transaction reads at or above the highest streamed version, ordinary reads/commits afterwards go through the C01/C03 oracles (commit timestamps above every streamed version), and the close / read-only open / re-open cycle of C07/C11/C14 shows the same contents and structure. non-trivial = run with >=1 verified Flush",
+		Real: []string{"stream_writer.go, table builder, value log write path, MANIFEST, oracle reset (real code)"}, Stubs: stubsCommon,
 	})
 	// C04 own writes
 	p4 := profT("T-C04")
